@@ -108,6 +108,16 @@ def config_inputs(cfg, N, seed):
                    'betay': inp['betaup3'][1].copy(),
                    'dtbetay': inp['dtbetaup3'][1].copy(),
                    'Tdown4': inp['Tdown4']}
+    elif cfg == 'rho_only':
+        # energy density alone (eps and rho0 are then derived), vanishing on
+        # one slab of the grid: a vacuum region next to matter
+        st = flrw_mapped(seed)
+        base = gc.ref_chunks(st, T_FLRW, X, Y, Z, gc.inputs_fn(True))
+        H = 0.5 / T_FLRW
+        rho = (3 * H * H / gr.KAPPA + 0 * X) * (X > X.min())
+        inp = {'gammadown3': base['gammadown3'], 'Kdown3': base['Kdown3'],
+               'press': rho / 3.0, 'rho': rho}
+        kw['Lambda'] = 0.0
     elif cfg in ('fluid', 'rho'):
         st = flrw_mapped(seed)
         base = gc.ref_chunks(st, T_FLRW, X, Y, Z, gc.inputs_fn(True))
